@@ -143,6 +143,14 @@ class InterpreterAnalyzer(ASTTemplate):
     # **********************************
 
     def visit_Start(self, node: AST.Start) -> Any:
+        try:
+            return self._visit_start_impl(node)
+        finally:
+            # Never leave the name of the statement under analysis behind (e.g. after an error):
+            # later error messages of the process would mention it.
+            vtlengine.Exceptions.dataset_output = None  # type: ignore[attr-defined]
+
+    def _visit_start_impl(self, node: AST.Start) -> Any:
         set_current_registry(ViralPropagationRegistry())
 
         results = {}
